@@ -106,7 +106,7 @@ def generate(rseed, tier, idx):
     e = stream(rseed, "env")
     o = stream(rseed, "order")
     fr = stream(rseed, "faults")
-    env = {"cwd": e.choice(("cwd", "cwd", "tree", "tree/sub")), "tty": e.random() < 0.3, "argform": e.choice(("abs", "abs", "rel"))}
+    env = {"cwd": e.choice(("cwd", "cwd", "tree", "tree/sub")), "tty": e.random() < 0.3, "argform": e.choice(("abs", "abs", "rel", "noarg"))}
     enum = idx % 2 == 1
     base_settings = _settings(g)
     nfiles = g.randint(1, 3) if enum else g.randint(1, 6)
@@ -139,6 +139,8 @@ def generate(rseed, tier, idx):
         tree[g.choice(_DIRS) + "theme_cm.css"] = {"k": "css", "text": ".t{color:#777}", "bystander": True}
     if g.random() < 0.3:
         tree["UPPER.CSS"] = {"k": "css", "text": ".u{color:#777}", "bystander": True}
+    if g.random() < 0.2:
+        tree[g.choice(_DIRS) + g.choice(("_cm.css", "x_cm_cm.css", "a_cm.CSS"))] = {"k": "css", "text": ".v{color:#777}", "bystander": True}
     if g.random() < 0.3:
         tree["notes.css.bak"] = {"k": "css", "text": ".n{color:#777}", "bystander": True}
     # stale outputs from an earlier (possibly crashed) run
